@@ -19,7 +19,7 @@ ASSUMPTIONS = ['the initial state of a parsed document is taken from the executo
                'removeAttribute/removeAttributeNS release the removed Attr (Xerces memory model): the node leaves the live set',
                'children of Attr nodes are outside the live set (Attr is compared by value); Attr as insertion target is not generated',
                'strings are BMP-only; names come from fixed pools valid/invalid in all XML 1.0 editions; no "xmlns" names and no empty-string namespace (DOM2/DOM3 differ)']
-BUDGET = {'quick': 700, 'thorough': 9000}
+BUDGET = {'quick': 600, 'thorough': 7000}
 WALLCAP = {'quick': 500, 'thorough': 3000}
 
 # Known genuine defects of the unchanged tree: the input class is removed from the generator *by construction*.
@@ -34,6 +34,9 @@ ACTIVE_EXCLUSIONS = {
     'C13-setAttributeNS-prefixed-lookup',
     'C13-document-fragment-partial-insert',
     'C13-clone-firstchild-flag',
+    'C13-clone-attr-specified',
+    'C13-clone-loses-defaults',
+    'C13-document-replaceChild-self',
 }
 _no = os.environ.get('VERIF_C13_NOEXCL', '')
 if _no == 'all': ACTIVE_EXCLUSIONS = set()
@@ -51,56 +54,14 @@ def case_strategy(maxops):
         'ndocs': st.integers(1, 3),
         'flags': st.one_of(st.none(), st.integers(0, 127)),
         'pre': st.integers(0, 3),
-        'ops': st.lists(op_strategy(), min_size=1, max_size=maxops),
+        'ops': st.integers(1, maxops).flatmap(lambda n: st.lists(op_strategy(), min_size=n, max_size=n)),
     })
 
-def K(name): return OPTABLE.index(name)
-# canned preludes (ordinary abstract ops) so that most histories start from a tree worth mutating
-PRELUDES = [
-    [],
-    [(K('cel'), 0, 0, 0, 0), (K('cel'), 0, 1, 0, 0), (K('ctx'), 0, 2, 0, 0), (K('ctx'), 0, 1, 0, 0), (K('app'), 0, 0, 0, 0), (K('app'), 0, 0, 0, 0), (K('app'), 8, 0, 0, 0), (K('app'), 8, 0, 0, 0)],
-    [(K('cel'), 1, 0, 0, 0), (K('celns'), 1, 3, 0, 0), (K('cfr'), 1, 0, 0, 0), (K('ctx'), 1, 2, 0, 0), (K('ctx'), 1, 0, 0, 0), (K('ccm'), 1, 1, 0, 0), (K('app'), 0, 0, 0, 0), (K('app'), 5, 8, 0, 0), (K('app'), 5, 0, 0, 0), (K('sat'), 0, 4, 2, 0), (K('satns'), 1, 12, 1, 0)],
-    [(K('cel'), 0, 0, 0, 0), (K('cel'), 1, 1, 0, 0), (K('cel'), 2, 2, 0, 0), (K('ctx'), 0, 2, 0, 0), (K('ctx'), 1, 7, 0, 0), (K('app'), 0, 0, 0, 0), (K('app'), 16, 0, 0, 0), (K('app'), 8, 8, 0, 0), (K('app'), 24, 0, 0, 0)],
-]
-
 def make_case(c):
-    return {'setup': {'ndocs': c['ndocs'], 'flags': c['flags']}, 'ops': PRELUDES[c['pre']] + [list(o) for o in c['ops']], 'excl': sorted(ACTIVE_EXCLUSIONS)}
+    return {'setup': {'ndocs': c['ndocs'], 'flags': c['flags'], 'pre': c['pre']}, 'ops': [list(o) for o in c['ops']], 'excl': sorted(ACTIVE_EXCLUSIONS)}
 
-def run_case(case, ex, want_hist=False):
-    """-> (ok, detail, hist)"""
-    setup = case['setup']
-    try:
-        inv0, init_dump = dh.get_init(ex, setup)
-    except xv.ExecutorDied as e:
-        return False, 'executor died during setup rc=%s\n%s' % (e.rc, e.stderr[-2000:]), None
-    if inv0 != '-': return False, 'structural invariant violated in the initial state: ' + inv0, None
-    w = dm.World.from_init(init_dump, setup['ndocs'], dh.doc0_text(setup['flags'])[1] if setup.get('flags') is not None else None)
-    crc0 = '%08x' % (dm.zlib.crc32(w.dump().encode('ascii')) & 0xFFFFFFFF)
-    h = dh.Hist(w, OPTABLE, case.get('excl', []))
-    steps = h.run(case['ops'])
-    try:
-        resp = dh.execute(ex, setup, steps)
-    except xv.ExecutorDied as e:
-        return False, 'executor died rc=%s (memory-safety failure or abort in the code under test)\n%s\nhistory:\n%s' % (
-            e.rc, e.stderr[-3000:], '\n'.join('%d %s' % (i, s.line.replace('\t', ' ')) for i, s in enumerate(steps))), h
-    init, idump, rsteps = dh.parse_response(resp)
-    if init[2] != crc0:
-        return False, 'MODEL-SELFCHECK: the model rebuilt from the initial dump does not reproduce it', h
-    detail, at, div = dh.compare(steps, rsteps, crc0)
-    if div is not None: h.labels.add('unspec-diverged')
-    if detail is None: return True, 'ok', h
-    # enrich: full dumps of the failing step
-    try:
-        resp2 = dh.execute(ex, setup, steps[:at + 1], full=True)
-        _, _, r2 = dh.parse_response(resp2)
-        got_dump = '\n'.join(r2[at][1]) if at < len(r2) else '(none)'
-    except xv.ExecutorDied:
-        got_dump = '(executor died while re-running for the dump)'
-    w2 = dm.World.from_init(init_dump, setup['ndocs'], dh.doc0_text(setup['flags'])[1] if setup.get('flags') is not None else None)
-    h2 = dh.Hist(w2, OPTABLE, case.get('excl', [])); h2.run(case['ops'][:at + 1])
-    hist = '\n'.join('%3d %-40s -> model %s%s' % (i, s.line.replace('\t', ' '), dh.expected_outcome(s), ' [unspecified: %s]' % s.res.unspec if s.res.unspec else '') for i, s in enumerate(steps[:at + 1]) if s.line != 'nop')
-    detail += '\n--- history up to the failing step\n%s\n--- dump by xerces after the step\n%s\n--- dump by the model after the step\n%s' % (hist, got_dump, w2.dump())
-    return False, detail, h
+def run_case(case, ex):
+    return dh.run_case(case, ex, OPTABLE)
 
 NONTRIV = ('rejected', 'cross-document', 'remove-after-insert')
 
